@@ -170,7 +170,39 @@ fn resolve(specs: &[OpSpec]) -> Vec<TxOp> {
     ops
 }
 
-fn case_strategy() -> impl Strategy<Value = TxCase> {
+/// Decoder of the `tx_hist` fuzz target: the same raw operation specs as the strategy draws, read
+/// from the fuzzer's bytes, resolved against the same model of the write buffer.
+pub fn case_from_bytes(u: &mut arbitrary::Unstructured<'_>) -> arbitrary::Result<TxCase> {
+    let n = u.int_in_range(1usize..=40)?;
+    let mut specs = Vec::with_capacity(n);
+    for _ in 0..n {
+        let flush = match u.int_in_range(0u8..=19)? {
+            0..=15 => 0,
+            16..=17 => 1,
+            k => k - 16, // 2, 3
+        };
+        let size = match u.int_in_range(0u8..=11)? {
+            0..=2 => SizeSpec::Small(u.int_in_range(0usize..=39)?),
+            3..=6 => SizeSpec::LeaveFree(u.int_in_range(0usize..=600)?),
+            7..=8 => SizeSpec::ExactFit,
+            9..=10 => SizeSpec::Span(u.int_in_range(1usize..=5)?, u.int_in_range(-2i32..=2)?),
+            _ => SizeSpec::Any(u.int_in_range(0usize..=1499)?),
+        };
+        specs.push(OpSpec {
+            flush,
+            kind: u.int_in_range(0usize..=MSG_KINDS.len() - 1)?,
+            opsel: u.arbitrary()?,
+            flags: u.arbitrary()?,
+            size,
+            refused: if u.ratio(1u8, 8u8)? { Some(u.int_in_range(0usize..=REFUSED_KINDS.len() - 1)?) } else { None },
+        });
+    }
+    let k = u.int_in_range(0usize..=2)?;
+    let wpend = (0..k).map(|_| u.int_in_range(0u8..=2)).collect::<arbitrary::Result<Vec<u8>>>()?;
+    Ok(TxCase { ops: resolve(&specs), wpend })
+}
+
+pub fn case_strategy() -> impl Strategy<Value = TxCase> {
     (
         prop::collection::vec(op_spec_strategy(), 1..=40),
         prop::collection::vec(0u8..3, 0..3),
@@ -466,6 +498,11 @@ pub fn run(ctx: &Ctx) -> i32 {
     });
     stats.merge(s2);
     viol.extend(v2);
+    crate::fuzzrun::golden("tx_hist", &mut stats, &mut viol);
+    if ctx.tier == vcommon::ev::Tier::Thorough {
+        let seeds: Vec<Vec<u8>> = (0..32u8).map(|i| (0..(8 + i as usize * 7)).map(|k| (k as u8).wrapping_mul(29).wrapping_add(i.wrapping_mul(13))).collect()).collect();
+        crate::fuzzrun::campaign(ctx, "tx_hist", crate::fuzzrun::fuzz_secs(180), &seeds, &mut stats, &mut viol);
+    }
     Report::new(RULE)
         .assume("reference encoding of a message = serde_json::to_vec of the same value (agreement of the built-in serializer with serde_json is C03's subject)")
         .assume("the buffer model (256-byte steps) is used only to aim sizes and classify cases, never to judge")
@@ -473,6 +510,9 @@ pub fn run(ctx: &Ctx) -> i32 {
 }
 
 pub fn replay(_lane: &str, case: serde_json::Value) -> CaseResult {
+    if _lane == "fuzz" {
+        return crate::fuzzrun::replay(&case);
+    }
     let case: TxCase = serde_json::from_value(case).map_err(|e| Fail::new("bad-replay", e.to_string()))?;
     println!("{}", truncate(&sample_of(&case).to_string(), 2000));
     check_case(&case, &mut Stats::default())
